@@ -33,7 +33,7 @@ def parse(s):
             while pos < n and s[pos] != '"':
                 if s[pos] == "\\" and pos + 1 < n:
                     pos += 1
-                    buf.append("\n" if s[pos] == "n" else s[pos])
+                    buf.append("\n" if s[pos] == "n" else ("\r" if s[pos] == "r" else s[pos]))
                 else:
                     buf.append(s[pos])
                 pos += 1
@@ -51,5 +51,5 @@ def dump(x):
     if isinstance(x, list):
         return "(" + " ".join(dump(e) for e in x) + ")"
     if isinstance(x, tuple):
-        return '"' + x[1].replace("\\", "\\\\").replace('"', '\\"').replace("\n", "\\n") + '"'
+        return '"' + x[1].replace("\\", "\\\\").replace('"', '\\"').replace("\n", "\\n").replace("\r", "\\r") + '"'
     return x
